@@ -137,6 +137,37 @@ def same_bind_projection(a, b):
 
 # --------------------------------------------------------------------- runners
 
+def harness_bin(ctx, BUILD):
+    """the harness binary of this run: the coverage-instrumented one in the thorough tier when it was built"""
+    return getattr(ctx, "harness_path", None) or os.path.join(BUILD, "harness")
+
+
+def harness_env(ctx):
+    env = dict(os.environ)
+    if getattr(ctx, "coverdir", None):
+        env["GOCOVERDIR"] = ctx.coverdir
+    return env
+
+
+def go_coverage(ctx, GOENV):
+    """Go statement coverage of sqlair under the inputs of this run (thorough tier; support only)."""
+    if not getattr(ctx, "coverdir", None) or not os.listdir(ctx.coverdir):
+        return None
+    rc, pct = sh(["go", "tool", "covdata", "percent", "-i=" + ctx.coverdir], env=GOENV)
+    rc2, fn = sh(["go", "tool", "covdata", "func", "-i=" + ctx.coverdir], env=GOENV)
+    pk = {}
+    for l in pct.splitlines():
+        m = re.search(r"(\S+)\s+coverage: ([0-9.]+)% of statements", l)
+        if m and "sqlair" in m.group(1):
+            pk[m.group(1)] = float(m.group(2))
+    partial = []
+    for l in fn.splitlines():
+        m = re.match(r"(\S+):\d+:\s+(\S+)\s+([0-9.]+)%", l)
+        if m and "canonical/sqlair" in m.group(1) and "verif_hooks" not in m.group(1) and float(m.group(3)) < 100.0:
+            partial.append("%s %s %s%%" % (m.group(1).split("canonical/sqlair/")[-1], m.group(2), m.group(3)))
+    return {"statements_covered_percent_by_package": pk, "functions_not_fully_covered": partial[:80]}
+
+
 def ncases(ctx, run, key="n"):
     """number of cases of a run; four times as many when the source the layer mirrors has changed"""
     n = run[key][ctx.tier]
@@ -175,10 +206,10 @@ def run_bind(ctx, pid, run, idx, replay, BUILD, ROOT):
     out = os.path.join(ctx.rundir, "bind%d" % idx)
     os.makedirs(out, exist_ok=True)
     n = ncases(ctx, run)
-    cmd = [os.path.join(BUILD, "harness"), "bind", "-seed", str(ctx.seed + 1000 * idx), "-n", str(n), "-out", out]
+    cmd = [harness_bin(ctx, BUILD), "bind", "-seed", str(ctx.seed + 1000 * idx), "-n", str(n), "-out", out]
     if replay is not None:
         cmd += ["-replay", replay]
-    rc, log = sh(cmd, timeout=3600)
+    rc, log = sh(cmd, env=harness_env(ctx), timeout=3600)
     res = {"failing": [], "diffs": [], "coverage": {}}
     if crashed(res, out, rc, log, pid):
         return res
@@ -223,9 +254,9 @@ def run_iter(ctx, pid, run, idx, replay, BUILD, ROOT):
     out = os.path.join(ctx.rundir, "iter%d" % idx)
     os.makedirs(out, exist_ok=True)
     n = ncases(ctx, run)
-    cmd = [os.path.join(BUILD, "harness"), "iter", "-seed", str(ctx.seed + 1000 * idx), "-n", str(n), "-out", out,
+    cmd = [harness_bin(ctx, BUILD), "iter", "-seed", str(ctx.seed + 1000 * idx), "-n", str(n), "-out", out,
            "-exhaustive", str(run.get("exhaustive", {}).get(ctx.tier, 0))]
-    rc, log = sh(cmd, timeout=3600)
+    rc, log = sh(cmd, env=harness_env(ctx), timeout=3600)
     res = {"failing": [], "diffs": [], "coverage": {}}
     if crashed(res, out, rc, log, pid):
         return res
@@ -268,9 +299,9 @@ def run_cache(ctx, pid, run, idx, replay, BUILD, ROOT):
     out = os.path.join(ctx.rundir, "cache%d" % idx)
     os.makedirs(out, exist_ok=True)
     n = ncases(ctx, run)
-    cmd = [os.path.join(BUILD, "harness"), "cache", "-seed", str(ctx.seed + 1000 * idx), "-n", str(n), "-out", out,
+    cmd = [harness_bin(ctx, BUILD), "cache", "-seed", str(ctx.seed + 1000 * idx), "-n", str(n), "-out", out,
            "-stress", str(run["stress"][ctx.tier])]
-    rc, log = sh(cmd, timeout=7200)
+    rc, log = sh(cmd, env=harness_env(ctx), timeout=7200)
     res = {"failing": [], "diffs": [], "coverage": {}}
     if crashed(res, out, rc, log, pid):
         return res
@@ -312,9 +343,9 @@ def run_cache(ctx, pid, run, idx, replay, BUILD, ROOT):
 def run_tx(ctx, pid, run, idx, replay, BUILD, ROOT):
     out = os.path.join(ctx.rundir, "tx%d" % idx)
     os.makedirs(out, exist_ok=True)
-    cmd = [os.path.join(BUILD, "harness"), "tx", "-seed", str(ctx.seed + 1000 * idx), "-n", str(ncases(ctx, run)),
+    cmd = [harness_bin(ctx, BUILD), "tx", "-seed", str(ctx.seed + 1000 * idx), "-n", str(ncases(ctx, run)),
            "-out", out, "-races", str(run["races"][ctx.tier])]
-    rc, log = sh(cmd, timeout=7200)
+    rc, log = sh(cmd, env=harness_env(ctx), timeout=7200)
     res = {"failing": [], "diffs": [], "coverage": {}}
     if crashed(res, out, rc, log, pid):
         return res
@@ -406,7 +437,7 @@ def run_parse(ctx, pid, run, idx, replay, BUILD, ROOT):
     out = os.path.join(ctx.rundir, "parse%d" % idx)
     os.makedirs(out, exist_ok=True)
     n = ncases(ctx, run)
-    cmd = [os.path.join(BUILD, "harness"), "parse", "-seed", str(ctx.seed + 1000 * idx), "-n", str(n),
+    cmd = [harness_bin(ctx, BUILD), "parse", "-seed", str(ctx.seed + 1000 * idx), "-n", str(n),
            "-mode", run["mode"], "-out", out,
            "-corpus", ",".join(os.path.join(ROOT, "corpus", d) for d in run.get("corpus", ["parser"]))]
     exh = run.get("exhaustive", {}).get(ctx.tier, 0)
@@ -414,7 +445,7 @@ def run_parse(ctx, pid, run, idx, replay, BUILD, ROOT):
         cmd += ["-exhaustive", str(exh)]
     if replay is not None:
         cmd += ["-replay", replay]
-    rc, log = sh(cmd, timeout=3600)
+    rc, log = sh(cmd, env=harness_env(ctx), timeout=3600)
     res = {"failing": [], "diffs": [], "coverage": {}}
     if crashed(res, out, rc, log, pid):
         return res
@@ -464,8 +495,8 @@ SCAN_RULE = ("statements with output expressions (all output forms x zoo types, 
 def run_scan(ctx, pid, run, idx, replay, BUILD, ROOT):
     out = os.path.join(ctx.rundir, "scan%d" % idx)
     os.makedirs(out, exist_ok=True)
-    cmd = [os.path.join(BUILD, "harness"), "scan", "-seed", str(ctx.seed + 1000 * idx), "-n", str(ncases(ctx, run)), "-out", out]
-    rc, log = sh(cmd, timeout=7200)
+    cmd = [harness_bin(ctx, BUILD), "scan", "-seed", str(ctx.seed + 1000 * idx), "-n", str(ncases(ctx, run)), "-out", out]
+    rc, log = sh(cmd, env=harness_env(ctx), timeout=7200)
     res = {"failing": [], "diffs": [], "coverage": {}}
     if crashed(res, out, rc, log, pid):
         return res
@@ -516,8 +547,8 @@ SQLITE_RULE = ("scenarios on a real in-memory SQLite: a table per zoo struct typ
 def run_sqlite(ctx, pid, run, idx, replay, BUILD, ROOT):
     out = os.path.join(ctx.rundir, "sqlite%d" % idx)
     os.makedirs(out, exist_ok=True)
-    cmd = [os.path.join(BUILD, "harness"), "sqlite", "-seed", str(ctx.seed + 1000 * idx), "-n", str(ncases(ctx, run)), "-out", out]
-    rc, log = sh(cmd, timeout=7200)
+    cmd = [harness_bin(ctx, BUILD), "sqlite", "-seed", str(ctx.seed + 1000 * idx), "-n", str(ncases(ctx, run)), "-out", out]
+    rc, log = sh(cmd, env=harness_env(ctx), timeout=7200)
     res = {"failing": [], "diffs": [], "coverage": {}}
     if crashed(res, out, rc, log, pid):
         return res
@@ -554,7 +585,7 @@ def run_determ(ctx, pid, run, idx, replay, BUILD, ROOT):
             binary = os.path.join(BUILD, "harness-race")
             race_note = "built with -race"
     cmd = [binary, "determ", "-seed", str(ctx.seed + 1000 * idx), "-n", str(ncases(ctx, run)), "-out", out]
-    rc, log = sh(cmd, timeout=7200)
+    rc, log = sh(cmd, env=harness_env(ctx), timeout=7200)
     res = {"failing": [], "diffs": [], "coverage": {}}
     if "WARNING: DATA RACE" in log:
         res["failing"].append({"property": "C16", "oracle": "data-race-reported", "layer": "determ", "detail": log[log.index("WARNING: DATA RACE"):][:3000]})
